@@ -163,3 +163,27 @@ package support
 //@   loop 1
 //@     complete [all_iterations_no_early_exit]
 //@     invariant [not_stopped_while_scanning_the_children] !*stop && *dist <= old(*dist) && cur != nil && dist != nil && stop != nil && minedges != nil && refEdge != nil && ones != nil
+
+// ---------------------------------------------------------------------------
+// The shared progress / cancellation record of the support computations (property C11): every accessor takes the
+// mutex and gives it back on every path, so no worker can be left holding it
+// ---------------------------------------------------------------------------
+//@ func (*support.Supporter).Canceled
+//@   requires sup != nil
+//@   assigns ghost(lock_Lock), ghost(lock_Unlock)
+//@   ensures [the_mutex_is_taken_once_and_released_on_every_path] ghost(lock_Lock) == old(ghost(lock_Lock)) + 1 && ghost(lock_Unlock) == old(ghost(lock_Unlock)) + 1
+//@   ensures [the_flag_as_it_stands] result == sup.stop
+//@ func (*support.Supporter).Cancel
+//@   requires sup != nil
+//@   assigns sup.stop, ghost(lock_Lock), ghost(lock_Unlock)
+//@   ensures [the_mutex_is_taken_once_and_released] ghost(lock_Lock) == old(ghost(lock_Lock)) + 1 && ghost(lock_Unlock) == old(ghost(lock_Unlock)) + 1
+//@   ensures [cancellation_is_recorded] sup.stop
+//@ func (*support.Supporter).Progress
+//@   requires sup != nil
+//@   assigns ghost(lock_Lock), ghost(lock_Unlock)
+//@   ensures [the_mutex_is_taken_once_and_released_on_every_path] ghost(lock_Lock) == old(ghost(lock_Lock)) + 1 && ghost(lock_Unlock) == old(ghost(lock_Unlock)) + 1
+//@ func (*support.Supporter).IncrementProgress
+//@   requires sup != nil
+//@   assigns sup.progress, ghost(lock_Lock), ghost(lock_Unlock)
+//@   ensures [the_mutex_is_taken_once_and_released] ghost(lock_Lock) == old(ghost(lock_Lock)) + 1 && ghost(lock_Unlock) == old(ghost(lock_Unlock)) + 1
+//@   ensures [one_more_tree_done] sup.progress == old(sup.progress) + 1
